@@ -69,7 +69,7 @@ var (
 	MOD_NUM_NUM = val.Fun(
 		types.Fun(oper.MOD, []*types.Type{types.Num, types.Num}, types.Num),
 		func(args ...*val.Val) *val.Val {
-			return val.Num(float64(int64(args[0].Num().V) % int64(args[1].Num().V)))
+			return val.Num(val.NumMod(args[0].Num().V, args[1].Num().V))
 		},
 	)
 	// EXP_NUM_NUM ^ :: num -> num -> num
